@@ -50,6 +50,10 @@ type c01cBody struct {
 type c01cSub struct {
 	K    string   `json:"k"`
 	Body c01cBody `json:"body"`
+	// OptKey: a WithOutputKey option among the options the caller passes for this member (a reused
+	// option list); the member's output is still merged under the parallel key K (implementation side
+	// only — the model knows no such option)
+	OptKey string `json:"optKey,omitempty"`
 }
 
 type c01cStage struct {
@@ -258,7 +262,11 @@ func c01cBuild(c *c01cChain, path string) *compose.Chain[c01cM, c01cM] {
 						p.AddLambda(s.K, c01cLambda(&s.Body))
 					}
 				default:
-					p.AddLambda(s.K, c01cLambda(&s.Body))
+					if s.OptKey != "" {
+						p.AddLambda(s.K, c01cLambda(&s.Body), compose.WithOutputKey(s.OptKey))
+					} else {
+						p.AddLambda(s.K, c01cLambda(&s.Body))
+					}
 				}
 			}
 			ch.AppendParallel(p)
@@ -700,7 +708,11 @@ func (g *c01cGen) subs(n int, flat bool, depth int, failAtMostOne bool) []c01cSu
 		if b.Op == "fail" {
 			failed = true
 		}
-		subs = append(subs, c01cSub{K: fmt.Sprintf("k%d", j), Body: b})
+		sub := c01cSub{K: fmt.Sprintf("k%d", j), Body: b}
+		if b.Op != "graph" && b.Op != "chain" && b.Op != "pass" && g.r.Chance(15) {
+			sub.OptKey = []string{"k0", "k1", "shared", "o" + fmt.Sprint(j)}[g.r.Intn(4)]
+		}
+		subs = append(subs, sub)
 	}
 	return subs
 }
